@@ -11,15 +11,25 @@
    no nan/inf, at most one dot), all            C03_decimal_to_str_lexical, C03_decimal_no_exponent_nan_inf,
    finite floats, all precisions                C03_decimal_one_dot, C03_positive_decimal (positiveDecimal facet),
                                                 C03_decimal_accepted, C03_positive_decimal_accepted
-  element order per node builder               C03_order_* (23 builders), C03_shape_order, C03_position_order,
-                                                C03_state_all / C03_initial_state_all / C03_tags_all (xs:all content)
-  enumerations use schema values               C03_enum_*
-  required elements / complete subtrees        C03_valid_point, C03_valid_rectangle, C03_valid_circle (full recursive validity)
+  element order per node builder               C03_order_* / C03_shape_order / C03_position_order on the name-list models
+                                                `XmlW.*Kids`, which ARE the children of the tree encoders: C03_kids_*
+                                                (all subsumed by the C03_valid_* theorems of section 7)
+  xs:all content of states                     derived from the attribute set: C03_shape_of_attrs, C03_*_shape,
+                                                C03_state_attrs_declared; C03_signal_state_all (all 64 flag subsets)
+  enumerations use schema values               C03_enum_total / C03_enum_partial (== : exactly the listed members) /
+                                                C03_enum_traffic_sign (<-> : exactly the listed members are rejected) on the
+                                                regenerated tables; C03_enum_written: what the writer model emits for a MEMBER
+                                                is accepted — the enum clause of C03_valid_doc is proved, not assumed
+  complete subtrees                            C03_valid_point, C03_valid_rectangle, C03_valid_circle, C03_written_*_valid
   every subtree down to the leaves             C03_valid_* (section 7: states, shapes, predictions, obstacles, lanelets, signs,
                                                 lights, intersections, planning problems, location, tags), C03_valid_tree
   id / ref key constraints                     C03_keys_ok, C03_doc_key_values, C03_doc_refs
-  whole document                               C03_valid_doc : C03_valid_doc_full writerModel  (complete writer model);
-                                                C03_valid_doc_partial / C03_valid_doc_parts (root assembly from valid parts)
+  whole document                               C03_valid_doc : C03_valid_doc_full writerModel  (complete writer model)
+
+  NOT in these theorems: "the file is also accepted by the library's own reader" — that clause is C01's
+  (`C01_xml_roundtrip_whole_file`: decoding the written tree yields `some (normFile f)`, for C01's own model of writer and
+  reader) and is evaluated on every generated file by the oracle of this check (CommonRoadFileReader on the written bytes);
+  the byte level (XML escaping / serialisation of the element tree) is outside the model (trusted: lxml).
 -/
 import CRProofs.Xsd
 import CRProofs.XsdEnum
@@ -28,7 +38,9 @@ import CRProofs.XsdEnumA2
 import CRProofs.XsdEnumA3
 import CRProofs.XsdEnumA4
 import CRProofs.XsdEnumB
+import CRProofs.XsdEnumT
 import CRProofs.XsdDocF
+import CRProofs.XsdDocK
 import Gen.XsdScenario
 import Gen.PyEnums
 
@@ -109,7 +121,9 @@ example : isPlainRepr "100000.0".toList = true ∧ isPlainRepr "-0.0".toList = t
 /-! ## 2. Element order per node builder
 
 `XmlW.<builder>Kids` is the sequence of child-element names the builder emits (CRModel/CRXmlW.lean, tied to the code by the
-correspondence op `kids`).  Each theorem: for ALL shapes of the object that the schema can express (the hypotheses are the
+correspondence op `kids`, and to the tree encoders of section 7 by the `C03_kids_*` theorems of section 2b: it is their
+`kidNames`).  These theorems are about the content-model matcher only and are subsumed by the `C03_valid_*` theorems, which
+also cover attributes, leaf texts and the recursion into the children.  Each theorem: for ALL shapes of the object that the schema can express (the hypotheses are the
 `minOccurs` the XSD itself demands: ≥ 2 bound points, ≥ 3 polygon vertices, ≥ 1 lanelet, …) the emitted sequence matches
 the content model of the complex type in the regenerated schema. -/
 
@@ -274,70 +288,153 @@ theorem C03_position_order (n : Nat) :
   · exact run "positionInterval" { name := "lanelet", type := "laneletRef", min := 1, max := none } (by decide) rfl (by decide) (by decide) (by decide) (by decide)
 
 
-/-! ## 3. xs:all content (states, signal states, tags): any order, no duplicates, required elements present -/
+/-! ## 2b. The name-list models are the children of the tree encoders
 
-/-- `state` (trajectory states): the used attributes map to pairwise different element names that the `state` type
-    declares, and position, orientation and time are among them. -/
-theorem C03_state_all (attrs : List String) (hnd : (stateKids attrs).Nodup)
-    (hdecl : ∀ n ∈ stateKids attrs, n ∈ (elemsOf (schema.content "state")).map (·.name))
-    (hreq : ∀ r ∈ ["position", "orientation", "time"], r ∈ stateKids attrs) : Ok "state" (stateKids attrs) :=
-  all_group_ok (by decide) (by decide) ["position", "orientation", "time"] (by decide) hnd hdecl hreq
+For every tree encoder of CRModel/CRXmlWDoc.lean, the names of the children it builds are the `XmlW.*Kids` sequence of the
+object's shape — so each order theorem above is a statement about the encoder's node (e.g. `C03_order_lanelet_node`). -/
 
-/-- `initialState` of obstacles has the same element set as `state` -/
-theorem C03_initial_state_all (attrs : List String) (hnd : (stateKids attrs).Nodup)
-    (hdecl : ∀ n ∈ stateKids attrs, n ∈ (elemsOf (schema.content "initialState")).map (·.name))
-    (hreq : ∀ r ∈ ["position", "orientation", "time"], r ∈ stateKids attrs) : Ok "initialState" (stateKids attrs) :=
-  all_group_ok (by decide) (by decide) ["position", "orientation", "time"] (by decide) hnd hdecl hreq
+theorem C03_kids_point (p : Nat) (tag : String) (q : Pt) : (ptNode p tag q).kidNames = pointKids q.z.isSome := kids_point p tag q
+theorem C03_kids_rectangle (p : Nat) (dyn : Bool) (l w o cx cy : Num) :
+    (shape1Node p dyn (.rect l w o cx cy)).kidNames = rectangleKids dyn (!o.isZero) (!(cx.isZero && cy.isZero)) :=
+  kids_rectangle p dyn l w o cx cy
+theorem C03_kids_circle (p : Nat) (dyn : Bool) (r cx cy : Num) :
+    (shape1Node p dyn (.circ r cx cy)).kidNames = circleKids dyn (!(cx.isZero && cy.isZero)) := kids_circle p dyn r cx cy
+theorem C03_kids_polygon (p : Nat) (dyn : Bool) (vs : List (Num × Num)) :
+    (shape1Node p dyn (.poly vs)).kidNames = polygonKids vs.length := kids_polygon p dyn vs
+theorem C03_kids_shape (p : Nat) (dyn : Bool) (s : List Shape1) :
+    (el "shape" (shapeNodes p dyn s)).kidNames = shapeKids (s.map Shape1.kind) := kids_shape p dyn s
+theorem C03_kids_bound (p : Nat) (tag : String) (pts : List Pt) (lm : String) :
+    (boundNode p tag pts lm).kidNames = boundKids pts.length (lm != "UNKNOWN") := kids_bound p tag pts lm
+theorem C03_kids_lanelet (p : Nat) (l : LaneletD) :
+    (laneletNode p l).kidNames = laneletKids
+      { nPred := l.pred.length, nSucc := l.succ.length, adjL := l.adjL.isSome, adjR := l.adjR.isSome, stop := l.stop.isSome,
+        nTypes := l.types.length, nOneWay := l.oneWay.length, nBidir := l.bidir.length, nSigns := l.signs.length,
+        nLights := l.lights.length } := kids_lanelet p l
+theorem C03_kids_stopLine (p : Nat) (s : StopLineD) :
+    (stopLineNode p s).kidNames = stopLineKids s.pts.isSome s.marking.isSome s.signs.length s.lights.length := kids_stopLine p s
+theorem C03_kids_trafficSign (p : Nat) (s : SignD) :
+    (signNode p s).kidNames = trafficSignKids s.elements.length s.pos.isSome s.virtual.isSome := kids_trafficSign p s
+theorem C03_kids_trafficSignElement (e : String × String × List String) :
+    (signElementNode e).kidNames = signElementKids e.2.2.length := kids_signElement e
+theorem C03_kids_trafficLight (p : Nat) (l : LightD) :
+    (lightNode p l).kidNames = trafficLightKids l.cycle.isSome l.pos.isSome (l.direction != "ALL") l.active.isSome :=
+  kids_trafficLight p l
+theorem C03_kids_cycle (es : List (Int × String)) (off : Option Int) :
+    (cycleNode es off).kidNames = cycleKids es.length (match off with | some o => decide (0 < o) | none => false) := kids_cycle es off
+theorem C03_kids_cycleElement (e : Int × String) : (cycleElementNode e).kidNames = cycleElementKids := kids_cycleElement e
+theorem C03_kids_incoming (i : IncomingD) :
+    (incomingNode i).kidNames = incomingKids i.lanelets.length i.right.length i.straight.length i.left.length i.leftOf.isSome :=
+  kids_incoming i
+theorem C03_kids_intersection (x : IntersectionD) :
+    (intersectionNode x).kidNames = intersectionKids x.incomings.length (!x.crossings.isEmpty) := kids_intersection x
+theorem C03_kids_crossing (ids : List Int) :
+    (el "crossing" (ids.map (refNode "crossingLanelet"))).kidNames = crossingKids ids.length := kids_crossing ids
+theorem C03_kids_location (l : LocationD) : (locationNode l).kidNames = locationKids l.geo.isSome l.env.isSome := kids_location l
+theorem C03_kids_geoTransformation (g : GeoD) :
+    (geoNode g).kidNames = geoTransformationKids ∧
+    (el "additionalTransformation" [leaf "xTranslation" g.x.dec, leaf "yTranslation" g.y.dec, leaf "zRotation" g.rot.dec,
+      leaf "scaling" g.scale.dec]).kidNames = additionalTransformationKids := ⟨rfl, rfl⟩
+/-- the three guards of the environment builder are `<str> is not <Enum member>`: always true -/
+theorem C03_kids_environment (e : EnvD) : (envNode e).kidNames = environmentKids true true true := kids_environment e
+theorem C03_kids_obstacles (p : Nat) (s : StaticObs) (e : EnvObs) (d : DynObs) (ph : PhantomObs) :
+    (staticNode p s).kidNames = staticObstacleKids ∧ (envObsNode p e).kidNames = environmentObstacleKids ∧
+    (dynNode p d).kidNames = dynamicObstacleKids d.sig0.isSome d.pred.kind (!d.series.isEmpty) ∧
+    (phantomNode p ph).kidNames = phantomObstacleKids ph.occ.isSome :=
+  ⟨rfl, rfl, kids_dynamicObstacle p d, kids_phantomObstacle p ph⟩
+theorem C03_kids_predictions (p : Nat) (o : Occ) (os : List Occ) (sts : List (List Attr)) (ss : List Signal) :
+    (occNode p o).kidNames = occupancyKids ∧ (occSetNode p os).kidNames = occupancySetKids os.length ∧
+    (trajNode p sts).kidNames = trajectoryKids sts.length ∧
+    (el "signalSeries" (ss.map (signalNode "signalState"))).kidNames = signalSeriesKids ss.length :=
+  ⟨rfl, kids_occupancySet p os, kids_trajectory p sts, kids_signalSeries ss⟩
+theorem C03_kids_value (p : Nat) (n : String) (v : Val) (t : TimeV) :
+    (el n (valKids p v)).kidNames = valueKids v.isInterval ∧ (el n (timeKids t)).kidNames = valueKids t.isInterval :=
+  ⟨kids_value p n v, kids_time n t⟩
+theorem C03_kids_signalState (tag : String) (s : Signal) :
+    (signalNode tag s).kidNames = signalStateKids s.horn.isSome s.il.isSome s.ir.isSome s.bl.isSome s.hz.isSome s.fb.isSome :=
+  kids_signalState tag s
+/-- a state node's children are the used attributes, mapped by `_map_to_xml_prop`, in `used_attributes` order -/
+theorem C03_kids_state (p : Nat) (tag : String) (st : List Attr) :
+    (stateNode p tag st).kidNames = stateKids (st.map Attr.pyName) := kids_state p tag st
+theorem C03_kids_planningProblem (p : Nat) (q : ProblemD) :
+    (problemNode p q).kidNames = planningProblemKids q.goals.length := kids_planningProblem p q
+theorem C03_kids_tags (tags : List String) : (tagsNode tags).kidNames = tagKids (tags.map (enumValue CR.Py.Gen.tag)) := kids_tags tags
+theorem C03_kids_root (d : DocD) :
+    (docNode d).kidNames = rootKids
+      { nLanelets := d.lanelets.length, nSigns := d.signs.length, nLights := d.lights.length,
+        nIntersections := d.intersections.length, nStatic := d.statics.length, nDynamic := d.dynamics.length,
+        nPhantom := d.phantoms.length, nEnvironment := d.envs.length, nProblems := d.problems.length } := kids_root d
 
-/-- `initialStateExact` of planning problems: position, velocity, orientation, yawRate, slipAngle, time (+ acceleration) -/
-theorem C03_planning_initial_state_all (attrs : List String) (hnd : (stateKids attrs).Nodup)
-    (hdecl : ∀ n ∈ stateKids attrs, n ∈ (elemsOf (schema.content "initialStateExact")).map (·.name))
-    (hreq : ∀ r ∈ ["position", "velocity", "orientation", "yawRate", "slipAngle", "time"], r ∈ stateKids attrs) :
-    Ok "initialStateExact" (stateKids attrs) :=
-  all_group_ok (by decide) (by decide) ["position", "velocity", "orientation", "yawRate", "slipAngle", "time"] (by decide)
-    hnd hdecl hreq
+/-- e.g.: the children of every lanelet node the encoder builds are in the order of the schema's `lanelet` type -/
+theorem C03_order_lanelet_node (p : Nat) (l : LaneletD) : Ok "lanelet" (laneletNode p l).kidNames := by
+  rw [kids_lanelet]; exact C03_order_lanelet _
 
-/-- `goalState`: time, and optionally position / orientation / velocity -/
-theorem C03_goal_state_all (attrs : List String) (hnd : (stateKids attrs).Nodup)
-    (hdecl : ∀ n ∈ stateKids attrs, n ∈ ["time", "position", "orientation", "velocity"]) (hreq : "time" ∈ stateKids attrs) :
-    Ok "goalState" (stateKids attrs) :=
-  all_group_ok (by decide) (by decide) ["time"] (by decide) hnd
-    (by intro n hn; have := hdecl n hn; revert this; generalize n = m; intro h
-        have e : (elemsOf (schema.content "goalState")).map (·.name) = ["time", "position", "orientation", "velocity"] := by decide
-        rw [e]; exact h)
-    (by intro r hr; simp at hr; subst hr; exact hreq)
+/-- … and of the root of every document with ≥ 1 lanelet and ≥ 1 planning problem -/
+theorem C03_order_root_node (d : DocD) (hl : d.lanelets ≠ []) (hp : d.problems ≠ []) : Ok "/commonRoad" (docNode d).kidNames := by
+  rw [kids_root]
+  refine C03_order_root _ ?_ ?_
+  · cases h : d.lanelets with
+    | nil => exact absurd h hl
+    | cons _ _ => simp
+  · cases h : d.problems with
+    | nil => exact absurd h hp
+    | cons _ _ => simp
 
-/-- signal states: `time` first, then whichever of the six flags (horn included) are set (all 64 combinations) -/
+/-! ## 3. xs:all content of states: derived from the attribute set
+
+A state is given by its used attributes (`Attr`, Python attribute names, in `used_attributes` order).  The xs:all conditions
+of the four state containers — pairwise different element names, all declared by the container type, required elements
+present (`StateShape`) — are DERIVED from what a Python state object guarantees (`AttrSet`: the used attributes are pairwise
+different keys of `__dict__`, the required ones are set) and from the attribute table: `_map_to_xml_prop` is injective on the
+attributes the container admits and maps them to declared elements. -/
+
+/-- general form -/
+theorem C03_shape_of_attrs (T : String) (allowed reqPy : List String) (st : List Attr)
+    (hinj : (("position" :: "time_step" :: allowed).map xmlProp).Nodup)
+    (hdecl : ∀ n ∈ "position" :: "time_step" :: allowed, xmlProp n ∈ (stateEs T).map (·.name))
+    (h : AttrSet reqPy st) (hin : ∀ a ∈ st, a.pyName ∈ "position" :: "time_step" :: allowed) :
+    StateShape T (reqPy.map xmlProp) st := shape_of_attrs hinj hdecl h hin
+
+theorem C03_state_shape (st : List Attr) (h : StateOk st) : StateShape "state" ["position", "orientation", "time"] st :=
+  state_shape h
+theorem C03_initial_state_shape (st : List Attr) (h : InitialStateOk st) :
+    StateShape "initialState" ["position", "orientation", "time"] st := initialState_shape h
+theorem C03_planning_initial_state_shape (st : List Attr) (h : PlanningInitialStateOk st) :
+    StateShape "initialStateExact" ["position", "velocity", "orientation", "yawRate", "slipAngle", "time"] st :=
+  planningInitialState_shape h
+theorem C03_goal_state_shape (st : List Attr) (h : GoalStateOk st) : StateShape "goalState" ["time"] st := goalState_shape h
+
+/-- The attribute table: of the 36 state attributes `_map_to_xml_prop` knows (the fields of all state classes of
+    commonroad/scenario/state.py that have a position, and the custom attributes curvature(_rate), jerk, jounce), the `state`
+    and `initialState` types declare an element for exactly the 33 of `stateAttrs` — `hitch_angle` (KSTState) and
+    `front_wheel_angular_speed`, `rear_wheel_angular_speed` (STDState) have none, so these two classes are not
+    schema-expressible; `_map_to_xml_prop` is injective on all of them.  (Any other attribute name falls through `xmlProp`
+    unchanged and is not in `stateAttrs`, hence not admitted by `StateOk`.) -/
+theorem C03_state_attrs_declared :
+    ((stateAttrs ++ ["hitch_angle", "front_wheel_angular_speed", "rear_wheel_angular_speed"]).all fun a =>
+      ((stateEs "state").map (·.name)).contains (xmlProp a) == stateAttrs.contains a &&
+      ((stateEs "initialState").map (·.name)).contains (xmlProp a) == stateAttrs.contains a) = true ∧
+    (("position" :: "time_step" :: stateAttrs ++ ["hitch_angle", "front_wheel_angular_speed", "rear_wheel_angular_speed"]).map
+      xmlProp).Nodup := by decide
+
+/-- signal states: `time` first, then whichever of the six flags (horn included) are set (all 64 combinations);
+    by `C03_kids_signalState` these are the children of `signalNode` -/
 theorem C03_signal_state_all (horn il ir bl hz fb : Bool) :
     Ok "signalState" (signalStateKids horn il ir bl hz fb) ∧ Ok "initialSignalState" (signalStateKids horn il ir bl hz fb) := by
   cases horn <;> cases il <;> cases ir <;> cases bl <;> cases hz <;> cases fb <;> decide
 
-/-- scenario tags: a set of tags (no duplicates) whose values the `tag` type declares -/
-theorem C03_tags_all (tags : List String) (hnd : tags.Nodup)
-    (hdecl : ∀ t ∈ tags, t ∈ (elemsOf (schema.content "tag")).map (·.name)) : Ok "tag" (tagKids tags) :=
-  all_group_ok (by decide) (by decide) [] (by decide) hnd hdecl (by intro r hr; cases hr)
-
-/-- the element names `_map_to_xml_prop` produces for the attributes of the state classes the schema can express
-    (InitialState, KSState, STState, ExtendedPMState, MBState, jerk/jounce/curvature custom attributes) are all declared -/
-theorem C03_state_names_declared :
-    ∀ a ∈ ["time_step", "position", "orientation", "velocity", "acceleration", "yaw_rate", "slip_angle", "steering_angle",
-           "roll_angle", "roll_rate", "pitch_angle", "pitch_rate", "velocity_y", "position_z", "velocity_z",
-           "roll_angle_front", "roll_rate_front", "velocity_y_front", "position_z_front", "velocity_z_front",
-           "roll_angle_rear", "roll_rate_rear", "velocity_y_rear", "position_z_rear", "velocity_z_rear",
-           "left_front_wheel_angular_speed", "right_front_wheel_angular_speed", "left_rear_wheel_angular_speed",
-           "right_rear_wheel_angular_speed", "delta_y_f", "delta_y_r", "curvature", "curvature_rate", "jerk", "jounce"],
-      xmlProp a ∈ (elemsOf (schema.content "state")).map (·.name) := by decide
-
-/-! ## 4. Enumerations: the value the writer emits is a value the schema enumerates
+/-! ## 4. Enumerations: the text the writer emits for an enum member is a value the schema enumerates
 
 `CR.Py.Gen.*` are the (member name, value) tables of the Python enums, regenerated from the working tree on every run
-(harness/translate/pyenums.py).  A finite table checked by `decide` IS the statement for all members. -/
+(harness/translate/pyenums.py).  A finite table checked by `decide` IS the statement for all members.  The data of the writer
+model (`DocD`) carries MEMBER NAMES; the member -> text mapping (`.value`, `.name.lower()` for stop lines, nothing for
+`LineMarking.UNKNOWN` / `TrafficLightDirection.ALL`) is part of `docNode` (`enumValue`, `lineMarkingLower`, `signValue`,
+`boundMarking`, `lightDirection`), and `C03_enum_written` derives from the table facts that this text is accepted. -/
 
 open CR.Py.Gen in
 /-- enums whose every member is expressible: written `.value` (bounds: lineMarking; stop line: `.name.lower()`) -/
 theorem C03_enum_total :
     (lineMarking.all fun (_, v) => acceptsV "lineMarking" v) = true ∧
-    (lineMarkingLowerName.all fun v => acceptsV "lineMarking" v) = true ∧
+    ((lineMarking.map (·.1)).all fun n => acceptsV "lineMarking" (lineMarkingLower n)) = true ∧
     (laneletType.all fun (_, v) => acceptsV "laneletType" v) = true ∧
     (roadUser.all fun (_, v) => acceptsV "vehicleType" v) = true ∧
     (trafficLightState.all fun (_, v) => acceptsV "trafficLightColor" v) = true ∧
@@ -345,65 +442,52 @@ theorem C03_enum_total :
     (tag.all fun (_, v) => ((elemsOf (schema.content "tag")).map (·.name)).contains v) = true ∧
     (obstacleRole.all fun (_, v) =>
       ((elemsOf (schema.content "/commonRoad")).map (·.name)).contains (v ++ "Obstacle")) = true ∧
-    acceptsV "/commonRoad/@commonRoadVersion" scenarioVersion = true := by decide
+    acceptsV "/commonRoad/@commonRoadVersion" scenarioVersion = true := enum_total
 
 open CR.Py.Gen in
-/-- enums with members the schema cannot express: exactly the listed members are accepted (the same lists drive the
-    generator, harness/c03_gen.py) -/
+/-- enums with members the schema cannot express: a member's value is accepted **iff** the member is listed
+    (`timeOfDayOk` …, CRModel/CRXmlWOk.lean; the same lists drive the generator, harness/c03_gen.py) -/
 theorem C03_enum_partial :
-    (timeOfDay.all fun (n, v) => acceptsV "timeOfDay" v == ["NIGHT", "UNKNOWN"].contains n) = true ∧
-    (weather.all fun (n, v) => acceptsV "weather" v == ["LIGHT_RAIN", "HEAVY_RAIN", "FOG", "SNOW", "HAIL"].contains n) = true ∧
-    (underground.all fun (n, v) => acceptsV "underground" v == !(["UNKNOWN"].contains n)) = true ∧
-    (obstacleType.all fun (n, v) => acceptsV "obstacleTypeStatic" v ==
-      ["UNKNOWN", "PARKED_VEHICLE", "CONSTRUCTION_ZONE", "ROAD_BOUNDARY"].contains n) = true ∧
-    (obstacleType.all fun (n, v) => acceptsV "obstacleTypeDynamic" v ==
-      ["UNKNOWN", "CAR", "TRUCK", "BUS", "MOTORCYCLE", "BICYCLE", "PEDESTRIAN", "PRIORITY_VEHICLE", "TRAIN", "TAXI"].contains n) = true ∧
-    (obstacleType.all fun (n, v) => acceptsV "obstacleTypeEnvironment" v ==
-      ["UNKNOWN", "BUILDING", "PILLAR", "MEDIAN_STRIP"].contains n) = true := by decide
+    (timeOfDay.all fun (n, v) => acceptsV "timeOfDay" v == timeOfDayOk.contains n) = true ∧
+    (weather.all fun (n, v) => acceptsV "weather" v == weatherOk.contains n) = true ∧
+    (underground.all fun (n, v) => acceptsV "underground" v == !(undergroundNot.contains n)) = true ∧
+    (obstacleType.all fun (n, v) => acceptsV "obstacleTypeStatic" v == staticTypes.contains n) = true ∧
+    (obstacleType.all fun (n, v) => acceptsV "obstacleTypeDynamic" v == dynamicTypes.contains n) = true ∧
+    (obstacleType.all fun (n, v) => acceptsV "obstacleTypeEnvironment" v == environmentTypes.contains n) = true := enum_partial
 
-theorem gerExcl_listed (c n : String) (hc : c = "TrafficSignIDGermany" ∨ c = "TrafficSignIDZamunda") (hn : n ∈ gerExcl) :
-    (c, n) ∈ signNotExpressible := by
-  simp only [gerExcl, List.mem_cons, List.not_mem_nil, or_false] at hn
-  rcases hc with rfl | rfl <;> rcases hn with rfl | rfl | rfl | rfl | rfl | rfl <;> decide
-
-theorem okNV_ger (p : String × String) (hp : p ∈ gerSigns) : okNV p = true := by
-  have := List.take_append_drop 120 gerSigns
-  rw [← this] at hp
-  rcases List.mem_append.mp hp with h | h
-  · exact List.all_eq_true.mp signs_ger_1 p h
-  · have := List.take_append_drop 60 (gerSigns.drop 120)
-    rw [← this] at h
-    rcases List.mem_append.mp h with h | h
-    · exact List.all_eq_true.mp signs_ger_2 p h
-    · exact List.all_eq_true.mp signs_ger_3 p h
-
-/-- traffic-sign ids of all 14 country enums: every member except `UNKNOWN` (value "") and the 24 members listed in
-    `signNotExpressible` (CRProofs/XsdEnum.lean; the same list drives the generator) is a value the schema enumerates.
+/-- traffic-sign ids of all 14 country enums: the schema accepts a member's value **iff** the member is neither `UNKNOWN`
+    (value "") nor one of the 24 members of `signNotExpressible` (CRModel/CRXmlWOk.lean; the same list drives the generator)
+    — the list is exact: every listed member is rejected, every other member is accepted.
     (The finite checks are `decide`d in CRProofs/XsdEnumA1..A4, B: German table in three parts, the Zamunda table is the
     German one, the other twelve countries.) -/
 theorem C03_enum_traffic_sign (x : String × String × String) (hx : x ∈ CR.Py.Gen.trafficSignId) :
-    acceptsV "trafficSignID" x.2.2 = true ∨ x.2.1 = "UNKNOWN" ∨ (x.1, x.2.1) ∈ signNotExpressible := by
-  have fromNV : ∀ (hc : x.1 = "TrafficSignIDGermany" ∨ x.1 = "TrafficSignIDZamunda"), okNV x.2 = true →
-      acceptsV "trafficSignID" x.2.2 = true ∨ x.2.1 = "UNKNOWN" ∨ (x.1, x.2.1) ∈ signNotExpressible := by
-    intro hc h
-    simp only [okNV, Bool.or_eq_true, beq_iff_eq, List.contains_iff_mem] at h
-    rcases h with (h | h) | h
-    · exact Or.inl h
-    · exact Or.inr (Or.inl h)
-    · exact Or.inr (Or.inr (gerExcl_listed _ _ hc h))
-  by_cases hg : x.1 = "TrafficSignIDGermany"
-  · exact fromNV (Or.inl hg) (okNV_ger x.2 (List.mem_map.mpr ⟨x, List.mem_filter.mpr ⟨hx, by simp [hg]⟩, rfl⟩))
-  · by_cases hz : x.1 = "TrafficSignIDZamunda"
-    · have : x.2 ∈ zamSigns := List.mem_map.mpr ⟨x, List.mem_filter.mpr ⟨hx, by simp [hz]⟩, rfl⟩
-      rw [signs_zam_eq_ger] at this
-      exact fromNV (Or.inr hz) (okNV_ger x.2 this)
-    · have h : signOk x = true :=
-        List.all_eq_true.mp signs_other x (List.mem_filter.mpr ⟨hx, by simp [hg, hz]⟩)
-      simp only [signOk, Bool.or_eq_true, beq_iff_eq, List.contains_iff_mem] at h
-      rcases h with (h | h) | h
-      · exact Or.inl h
-      · exact Or.inr (Or.inl h)
-      · exact Or.inr (Or.inr h)
+    acceptsV "trafficSignID" x.2.2 = true ↔ (x.2.1 ≠ "UNKNOWN" ∧ (x.1, x.2.1) ∉ signNotExpressible) :=
+  sign_accepts_iff x hx
+
+open CR.Py.Gen in
+/-- **the enum clause of the writer model**: for every enum member the data may name (all members of the total enums, the
+    listed members of the partial ones, the expressible traffic-sign members), the text `docNode` writes for it is accepted
+    by the schema's simple type of the element it is written into.  These are the facts the `C03_valid_*` proofs use; the
+    predicates `…Ok` only ask that the names ARE such members. -/
+theorem C03_enum_written :
+    (∀ n, memberOf lineMarking n → acceptsV "lineMarking" (enumValue lineMarking n) = true ∧
+                                   acceptsV "lineMarking" (lineMarkingLower n) = true) ∧
+    (∀ n, memberOf laneletType n → acceptsV "laneletType" (enumValue laneletType n) = true) ∧
+    (∀ n, memberOf roadUser n → acceptsV "vehicleType" (enumValue roadUser n) = true) ∧
+    (∀ n, memberOf trafficLightState n → acceptsV "trafficLightColor" (enumValue trafficLightState n) = true) ∧
+    (∀ n, memberOf trafficLightDirection n → acceptsV "trafficLight/direction" (enumValue trafficLightDirection n) = true) ∧
+    (∀ n, memberOf tag n → enumValue tag n ∈ (elemsOf (schema.content "tag")).map (·.name)) ∧
+    (∀ n ∈ timeOfDayOk, acceptsV "timeOfDay" (enumValue timeOfDay n) = true) ∧
+    (∀ n ∈ weatherOk, acceptsV "weather" (enumValue weather n) = true) ∧
+    (∀ n, memberOf underground n → n ∉ undergroundNot → acceptsV "underground" (enumValue underground n) = true) ∧
+    (∀ n ∈ staticTypes, acceptsV "obstacleTypeStatic" (enumValue obstacleType n) = true) ∧
+    (∀ n ∈ dynamicTypes, acceptsV "obstacleTypeDynamic" (enumValue obstacleType n) = true) ∧
+    (∀ n ∈ environmentTypes, acceptsV "obstacleTypeEnvironment" (enumValue obstacleType n) = true) ∧
+    (∀ e : String × String × List String, SignElemOk e → acceptsV "trafficSignID" (signValue e.1 e.2.1) = true) :=
+  ⟨fun _ h => ⟨ok_lineMarking h, ok_lineMarkingLower h⟩, fun _ h => ok_laneletType h, fun _ h => ok_roadUser h,
+   fun _ h => ok_lightState h, fun _ h => ok_lightDirection h, fun _ h => ok_tag h, fun _ h => ok_timeOfDay h,
+   fun _ h => ok_weather h, fun _ hm h => ok_underground hm h, fun _ h => ok_static h, fun _ h => ok_dynamic h,
+   fun _ h => ok_environment h, fun _ h => ok_sign h⟩
 
 /-- booleans are written as `str(b).lower()`, the adjacency direction as "same" / "opposite" -/
 theorem C03_enum_literals :
@@ -602,109 +686,7 @@ example : validNode schema "rectangle"
 example : validNode schema "rectangle" (rectangleNode "0.0000".toList "2.0".toList none none) = false := by decide
 
 
-/-! ## 6. The whole document
-
-`seq_assembly` (CRProofs/Xsd.lean) is the general composition rule: an element whose type is a sequence of distinctly named
-element particles is valid if its attributes are, and its children are families of valid elements in particle order.
-Instantiated at the root it gives `C03_valid_doc_partial`. -/
-
-/-- the parts of a written document: header attributes and the object families in the order the writer appends them
-    (XMLFileWriter._add_all_objects_from_scenario / _add_all_planning_problems_from_planning_problem_set) -/
-structure Parts where
-  attrs : List (String × String)
-  location : Xml
-  tags : Xml
-  lanelets : List Xml
-  signs : List Xml
-  lights : List Xml
-  intersections : List Xml
-  statics : List Xml
-  dynamics : List Xml
-  phantoms : List Xml
-  environments : List Xml
-  problems : List Xml
-
-def Parts.families (p : Parts) : List (List Xml) :=
-  [[p.location], [p.tags], p.lanelets, p.signs, p.lights, p.intersections, p.statics, p.dynamics, p.phantoms,
-   p.environments, p.problems]
-
-def rootNode (p : Parts) : Xml := .node "commonRoad" p.attrs [] p.families.flatten
-
-/-- every member of the family is an element `name` that is valid against `type` -/
-def Fam (name type : String) (f : List Xml) : Prop := ∀ x ∈ f, x.name = name ∧ validNode schema type x = true
-
-
-/-- **valid_doc (partial).** If the header attributes are valid, every object subtree is valid against the type of its
-    family, there is at least one lanelet and one planning problem, and the identity constraints hold, then the document
-    the writer assembles is valid against the schema: the families are appended in exactly the order of the root sequence. -/
-theorem C03_valid_doc_partial (p : Parts) (ha : attrsOk schema rootDecl p.attrs = true)
-    (hloc : Fam "location" "location" [p.location]) (htag : Fam "scenarioTags" "tag" [p.tags])
-    (hlan : Fam "lanelet" "lanelet" p.lanelets) (hsig : Fam "trafficSign" "trafficSign" p.signs)
-    (hlig : Fam "trafficLight" "trafficLight" p.lights) (hint : Fam "intersection" "intersection" p.intersections)
-    (hsta : Fam "staticObstacle" "staticObstacle" p.statics) (hdyn : Fam "dynamicObstacle" "dynamicObstacle" p.dynamics)
-    (hpha : Fam "phantomObstacle" "phantomObstacle" p.phantoms)
-    (henv : Fam "environmentObstacle" "environmentObstacle" p.environments)
-    (hpro : Fam "planningProblem" "planningProblem" p.problems)
-    (h1 : 1 ≤ p.lanelets.length) (h2 : 1 ≤ p.problems.length)
-    (hkeys : keysOk schema (rootNode p) = true) (hrefs : refsOk schema (rootNode p) = true) :
-    validDoc schema (rootNode p) = true := by
-  have hl : schema.lookup "/commonRoad" = some (.complex rootDecl false (schema.content "/commonRoad")) := by decide
-  have he : elemsOf (schema.content "/commonRoad") =
-      [{ name := "location", type := "location", min := 1, max := some 1 },
-       { name := "scenarioTags", type := "tag", min := 1, max := some 1 },
-       { name := "lanelet", type := "lanelet", min := 1, max := none },
-       { name := "trafficSign", type := "trafficSign", min := 0, max := none },
-       { name := "trafficLight", type := "trafficLight", min := 0, max := none },
-       { name := "intersection", type := "intersection", min := 0, max := none },
-       { name := "staticObstacle", type := "staticObstacle", min := 0, max := none },
-       { name := "dynamicObstacle", type := "dynamicObstacle", min := 0, max := none },
-       { name := "phantomObstacle", type := "phantomObstacle", min := 0, max := none },
-       { name := "environmentObstacle", type := "environmentObstacle", min := 0, max := none },
-       { name := "planningProblem", type := "planningProblem", min := 1, max := none }] := by decide
-  have any0 : ∀ (nm ty : String) (k : Nat), inRange { name := nm, type := ty, min := 0, max := none } k :=
-    fun _ _ _ => ⟨Nat.zero_le _, fun m hm => by cases hm⟩
-  have hf : FamsOk schema (elemsOf (schema.content "/commonRoad")) p.families := by
-    rw [he]
-    exact ⟨hloc, ⟨by simp, fun m hm => by cases hm; simp⟩, htag, ⟨by simp, fun m hm => by cases hm; simp⟩,
-           hlan, ⟨h1, fun m hm => by cases hm⟩, hsig, any0 _ _ _, hlig, any0 _ _ _, hint, any0 _ _ _, hsta, any0 _ _ _,
-           hdyn, any0 _ _ _, hpha, any0 _ _ _, henv, any0 _ _ _, hpro, ⟨h2, fun m hm => by cases hm⟩, trivial⟩
-  have hv : validNode schema "/commonRoad" (rootNode p) = true :=
-    seq_assembly hl (by decide) "commonRoad" p.attrs ha p.families hf (by simp [Parts.families])
-  have hn : schema.rootName = "commonRoad" := by decide
-  have hrt : schema.rootType = "/commonRoad" := by decide
-  unfold validDoc
-  rw [hrt, hv, hkeys, hrefs, hn]
-  simp [rootNode, Xml.name]
-
-/-- the header the writer sets (`_write_header`): time step size through `decimal_to_str`, the fixed version string,
-    free-text author / affiliation / source / benchmark id, today's date — valid for every finite time step size -/
-theorem C03_root_attrs_ok (dt : FloatRepr) (hdt : dt.Finite) (author affiliation source benchmark date : String)
-    (hdate : isDate date.toList = true) :
-    attrsOk schema rootDecl
-      [("timeStepSize", String.ofList (decimalToStr dt.repr)), ("commonRoadVersion", CR.Py.Gen.scenarioVersion),
-       ("author", author), ("affiliation", affiliation), ("source", source), ("benchmarkID", benchmark), ("date", date)] = true := by
-  have hd : rootDecl =
-      [{ name := "commonRoadVersion", type := "/commonRoad/@commonRoadVersion", required := true },
-       { name := "benchmarkID", type := "xs:string", required := true },
-       { name := "date", type := "xs:date", required := true },
-       { name := "author", type := "xs:string", required := true },
-       { name := "affiliation", type := "xs:string", required := true },
-       { name := "source", type := "xs:string", required := true },
-       { name := "timeStepSize", type := "xs:decimal", required := true }] := by decide
-  have s1 : simpleOf schema "xs:string" = some { base := .string } := by decide
-  have s2 : simpleOf schema "xs:date" = some { base := .date } := by decide
-  have s3 : simpleOf schema "xs:decimal" = some { base := .decimal } := by decide
-  have s4 : (simpleOf schema "/commonRoad/@commonRoadVersion").map (·.accepts CR.Py.Gen.scenarioVersion.toList) = some true := by decide
-  have hdec := decimal_accepts (decimalToStr_isDecimal hdt)
-  have hstr : ∀ v : String, ({ base := .string } : Simple).accepts v.toList = true := by intro v; simp [Simple.accepts]
-  have hdt' : ({ base := .date } : Simple).accepts date.toList = true := by simp [Simple.accepts, hdate]
-  rw [hd]
-  cases h4 : simpleOf schema "/commonRoad/@commonRoadVersion" with
-  | none => rw [h4] at s4; simp at s4
-  | some st =>
-    rw [h4] at s4
-    simp only [Option.map_some, Option.some.injEq] at s4
-    simp [attrsOk, s1, s2, s3, h4, s4, hstr, hdt', hdec]
+/-! ## 6. The whole document: what has to be shown -/
 
 /-- what a complete model of the writer has to provide for the full statement -/
 structure WriterModel where
@@ -713,42 +695,18 @@ structure WriterModel where
   encode : Input → Xml
 
 /-- **valid_doc (full statement).** Every expressible input is encoded as a document that is valid against the schema,
-    including the identity constraints. -/
+    including the identity constraints.  Proved for the complete writer model in section 7 (`C03_valid_doc`). -/
 def C03_valid_doc_full (W : WriterModel) : Prop := ∀ i, W.Expressible i → validDoc schema (W.encode i) = true
-
-/-- The instance that IS proved: inputs are the `Parts` whose object subtrees are valid against their family types.
-    Missing for the instance "Python scenario objects ↦ the real writer's tree": complete tree encoders (and their recursive
-    validity proofs) for lanelet, trafficSign, trafficLight, intersection, static/dynamic/phantom/environment obstacle
-    and planningProblem subtrees — for those, child order (C03_order_*), xs:all content (C03_*_all), enumerations (C03_enum_*)
-    and leaf grammar (section 1) are proved per node, and points / rectangles / circles completely (section 5); they would
-    be composed with `seq_assembly` / `validNode_complex` exactly as the root is composed here — and the key / keyref
-    clause, which rests on the uniqueness of ids in a Scenario (C09's invariant) and on references being resolvable
-    (part of "schema-expressible"). -/
-def partsWriter : WriterModel where
-  Input := Parts
-  Expressible p :=
-    attrsOk schema rootDecl p.attrs = true ∧ Fam "location" "location" [p.location] ∧ Fam "scenarioTags" "tag" [p.tags] ∧
-    Fam "lanelet" "lanelet" p.lanelets ∧ Fam "trafficSign" "trafficSign" p.signs ∧ Fam "trafficLight" "trafficLight" p.lights ∧
-    Fam "intersection" "intersection" p.intersections ∧ Fam "staticObstacle" "staticObstacle" p.statics ∧
-    Fam "dynamicObstacle" "dynamicObstacle" p.dynamics ∧ Fam "phantomObstacle" "phantomObstacle" p.phantoms ∧
-    Fam "environmentObstacle" "environmentObstacle" p.environments ∧ Fam "planningProblem" "planningProblem" p.problems ∧
-    1 ≤ p.lanelets.length ∧ 1 ≤ p.problems.length ∧ keysOk schema (rootNode p) = true ∧ refsOk schema (rootNode p) = true
-  encode := rootNode
-
-theorem C03_valid_doc_parts : C03_valid_doc_full partsWriter := by
-  intro p h
-  obtain ⟨a, b, c, d, e, f, g, h1, i, j, k, l, m, n, o, q⟩ := h
-  exact C03_valid_doc_partial p a b c d e f g h1 i j k l m n o q
-
 
 /-! ## 7. Every subtree, down to every leaf — and the whole document
 
 `CR.XmlW.docNode` (CRModel/CRXmlWDoc.lean) is the complete tree the writer builds from the data it reads off the scenario
-objects (`DocD`: numbers as repr + exact value, ids, enum values as written, optional parts, lists in iteration order).  The
+objects (`DocD`: numbers as repr + exact value, ids, enum MEMBER names, optional parts, lists in iteration order).  The
 harness compares it with the tree the real writer produced for every generated document (op `tree`).  The predicates
 `…Ok` say "schema-expressible" for each kind of object; they are the `minOccurs` / facets / required elements of the XSD
-itself (ids ≥ 1, lengths > 0, ≥ 2 bound points, time steps ≥ 1 / = 0, interval goals, enum values the schema lists …).
-Proofs: CRProofs/XsdDoc.lean (leaf lemmas, assembly rules), XsdDocA–E. -/
+itself (ids ≥ 1, lengths > 0, ≥ 2 bound points, time steps ≥ 1 / = 0, interval goals, enum members that are expressible —
+that their written text is a schema value is proved, `C03_enum_written` — attribute sets of states, not their xs:all shape).
+Proofs: CRProofs/XsdDoc.lean (leaf lemmas, assembly rules), XsdDocA–F, XsdEnumT. -/
 
 /-- states: trajectory state, obstacle initial state, planning-problem initial state, goal state; signal states -/
 theorem C03_valid_state (p : Nat) (tag : String) (st : List Attr) (h : StateOk st) :
@@ -809,6 +767,10 @@ theorem C03_valid_location (l : LocationD) (h : LocationOk l) : validNode schema
   valid_location h
 theorem C03_valid_tags (tags : List String) (h : TagsOk tags) : validNode schema "tag" (tagsNode tags) = true := valid_tags h
 
+/-- the header the writer sets (`_write_header`): time step size through `decimal_to_str`, the fixed version string
+    (`commonroad.SCENARIO_VERSION`, regenerated), free-text author / affiliation / source / benchmark id, the date -/
+theorem C03_header_ok (d : DocD) (h : HeaderOk d) : attrsOk schema rootDecl (headerAttrs d) = true := header_ok h
+
 /-- the whole element tree against the root type: every element, attribute and leaf -/
 theorem C03_valid_tree (d : DocD) (h : DocOk d) : validNode schema "/commonRoad" (docNode d) = true := valid_docNode h
 
@@ -849,16 +811,16 @@ private def pt2 (x y : Num) : Pt := { x := x, y := y }
 
 /-- one lanelet of 1e5 m, a static obstacle of length 1e-05 m rotated by 1e-06 rad, one planning problem -/
 def exampleDoc : DocD :=
-  { precision := 4, dt := n "1e-05" false 1 100000, version := "2020a", author := "A", affiliation := "TUM", source := "",
+  { precision := 4, dt := n "1e-05" false 1 100000, author := "A", affiliation := "TUM", source := "",
     benchmark := "ZAM_Test-1_1_T-1", date := "2026-09-29",
     location := { geoNameId := -999, lat := n "999" false 999 1, lon := n "999" false 999 1, geo := none, env := none },
-    tags := ["urban"],
+    tags := ["URBAN"],
     lanelets := [{ id := 1, left := [pt2 (n "0.0" false 0 1) (n "1.0" false 1 1), pt2 (n "100000.0" false 100000 1) (n "1.0" false 1 1)],
                    right := [pt2 (n "0.0" false 0 1) (n "-1.0" true 1 1), pt2 (n "100000.0" false 100000 1) (n "-1.0" true 1 1)],
-                   lmLeft := some "solid", lmRight := none, pred := [], succ := [1], adjL := none, adjR := none, stop := none,
-                   types := [], oneWay := ["car"], bidir := [], signs := [], lights := [] }],
+                   lmLeft := "SOLID", lmRight := "UNKNOWN", pred := [], succ := [1], adjL := none, adjR := none, stop := none,
+                   types := [], oneWay := ["CAR"], bidir := [], signs := [], lights := [] }],
     signs := [], lights := [], intersections := [],
-    statics := [{ id := 2, type := "parkedVehicle",
+    statics := [{ id := 2, type := "PARKED_VEHICLE",
                   shape := [.rect (n "1e-05" false 1 100000) (n "2.0" false 2 1) (n "1e-06" false 1 1000000) (n "5.0" false 5 1) (n "0.0" false 0 1)],
                   init := [.time (.exact 0), .position (.point (pt2 (n "5.0" false 5 1) (n "0.0" false 0 1))),
                            .value "orientation" (.exact (n "1e-06" false 1 1000000))] }],
